@@ -1,5 +1,6 @@
 SPECIFICATION Spec
 CONSTANTS
   Alpha <- Boundary
+  FirstAlpha <- Boundary
   N = 5
 INVARIANTS Judge
